@@ -35,12 +35,19 @@ static Run* R;
 struct Prec { double precision; int64_t U; const char* name; };
 // precision relative to the unit lattice; U = grid points per lattice unit
 static const Prec PRECS[3] = {{1e-3, 1000, "1e-3"}, {1.0 / 1024, 1024, "2^-10"}, {1.0 / 64, 64, "1/64"}};
-// writer configurations: (library unit, library precision); file grid = precision/unit user units
-struct WCfg { double unit, precision; int64_t U; const char* name; };
-static const WCfg WCFGS[4] = {{1, 1e-3, 1000, "unit=1,precision=1e-3"},
-                              {1, 1.0 / 1024, 1024, "unit=1,precision=2^-10"},
-                              {1, 1.0 / 64, 64, "unit=1,precision=1/64"},
-                              {1e-6, 1e-9, 1000, "unit=1e-6,precision=1e-9"}};
+// writer configurations: library unit and precision (metres), user units per lattice unit (scale);
+// file grid = precision/unit user units; U = scale*unit/precision = file-grid points per lattice unit.
+// Configurations 4..6 put the lattice on multiples of the file grid that are NOT multiples of one user unit
+// (features smaller than a unit); 4 and 5 have unit^2 > precision, i.e. one user unit is coarser than the file grid.
+struct WCfg { double unit, precision, scale; int64_t U; const char* name; };
+static const int NWCFG = 7;
+static const WCfg WCFGS[NWCFG] = {{1, 1e-3, 1, 1000, "unit=1,precision=1e-3,scale=1"},
+                                  {1, 1.0 / 1024, 1, 1024, "unit=1,precision=2^-10,scale=1"},
+                                  {1, 1.0 / 64, 1, 64, "unit=1,precision=1/64,scale=1"},
+                                  {1e-6, 1e-9, 1, 1000, "unit=1e-6,precision=1e-9,scale=1"},
+                                  {1e-3, 1e-9, 4e-4, 400, "unit=1e-3,precision=1e-9,scale=4e-4"},
+                                  {1, 1e-3, 0.25, 250, "unit=1,precision=1e-3,scale=0.25"},
+                                  {1e-6, 1e-9, 0.4, 400, "unit=1e-6,precision=1e-9,scale=0.4"}};
 
 struct Shape {
     IPoly pts;         // lattice coordinates, input order (may contain one repeated vertex)
@@ -446,14 +453,15 @@ static PartVerdict check_partition(const std::vector<Samp>& samples, const std::
     return v;
 }
 static i128 abs128(i128 v) { return v < 0 ? -v : v; }
-static bool pieces_to_grid(const Array<Polygon*>& arr, int64_t U, std::vector<IPoly>& out, std::string& err) {
+// mult = grid points per coordinate unit of the polygons in arr
+static bool pieces_to_grid(const Array<Polygon*>& arr, double mult, std::vector<IPoly>& out, std::string& err) {
     for (uint64_t i = 0; i < arr.count; i++) {
         IPoly p;
         for (uint64_t j = 0; j < arr[i]->point_array.count; j++) {
             IP q;
             Vec2 v = arr[i]->point_array[j];
-            if (!eg::to_grid(v.x, (double)U, q.x) || !eg::to_grid(v.y, (double)U, q.y)) {
-                err = fmt("piece %llu vertex %llu = (%.17g, %.17g) is not on the 1/%lld grid", (unsigned long long)i, (unsigned long long)j, v.x, v.y, (long long)U);
+            if (!eg::to_grid(v.x, mult, q.x) || !eg::to_grid(v.y, mult, q.y)) {
+                err = fmt("piece %llu vertex %llu = (%.17g, %.17g) is not on the 1/%.17g grid", (unsigned long long)i, (unsigned long long)j, v.x, v.y, mult);
                 return false;
             }
             p.push_back(q);
@@ -471,8 +479,8 @@ static int64_t count_new_vertices(const IPoly& lat, int64_t U, const std::vector
 }
 
 // ------------------------------------------------------------------------------ building gdstk polygons
-static void set_points(Polygon& poly, const IPoly& lat, IP off = {0, 0}) {
-    for (auto& q : lat) poly.point_array.append(Vec2{(double)(q.x + off.x), (double)(q.y + off.y)});
+static void set_points(Polygon& poly, const IPoly& lat, IP off = {0, 0}, double scale = 1) {
+    for (auto& q : lat) poly.point_array.append(Vec2{scale * (double)(q.x + off.x), scale * (double)(q.y + off.y)});
 }
 static void set_repetition(Repetition& r, int kind) {
     memset(&r, 0, sizeof r);
@@ -686,8 +694,10 @@ static IP wr_rep(const Shape& sh) { int64_t x0, y0, x1, y1; lattice_bbox(sh.pts,
 static IP wr_shift(const Shape& sh) { int64_t x0, y0, x1, y1; lattice_bbox(sh.pts, x0, y0, x1, y1); return {0, std::max<int64_t>(64, (y1 - y0) + 8)}; }
 
 // one library with a cell per shape; each cell holds the polygon twice (layer 3 with a 2x1 repetition,
-// layer 4 translated, no repetition) so that the writer's work array is reused inside a cell
-static void writer_block(const std::vector<Shape>& shapes, size_t first, size_t last, const std::vector<uint64_t>& limits, const std::vector<int>& cfgs, bool verbose) {
+// layer 4 translated, no repetition) so that the writer's work array is reused inside a cell.  Every
+// (configuration, limit) is written by both writers: Library::write_gds and the streaming GdsWriter
+// (gdswriter_init / write_cell per cell / close).  only_writer: -1 both, 0 library, 1 streaming.
+static void writer_block(const std::vector<Shape>& shapes, size_t first, size_t last, const std::vector<uint64_t>& limits, const std::vector<int>& cfgs, bool verbose, int only_writer = -1) {
     last = std::min(last, shapes.size());
     if (first >= last) return;
     const std::string sub = "writer";
@@ -705,22 +715,36 @@ static void writer_block(const std::vector<Shape>& shapes, size_t first, size_t 
             c->name = copy_string(fmt("S%zu", s).c_str(), NULL);
             Polygon* a = (Polygon*)allocate_clear(sizeof(Polygon));
             a->tag = make_tag(3, 7);
-            set_points(*a, shapes[s].pts);
+            set_points(*a, shapes[s].pts, {0, 0}, wc.scale);
             a->repetition.type = RepetitionType::Rectangular;
-            a->repetition.columns = 2; a->repetition.rows = 1; a->repetition.spacing = Vec2{(double)wr_rep(shapes[s]).x, (double)wr_rep(shapes[s]).y};
+            a->repetition.columns = 2; a->repetition.rows = 1; a->repetition.spacing = Vec2{wc.scale * (double)wr_rep(shapes[s]).x, wc.scale * (double)wr_rep(shapes[s]).y};
             set_two_properties(a->properties);
             Polygon* b = (Polygon*)allocate_clear(sizeof(Polygon));
             b->tag = make_tag(4, 7);
-            set_points(*b, shapes[s].pts, wr_shift(shapes[s]));
+            set_points(*b, shapes[s].pts, wr_shift(shapes[s]), wc.scale);
             set_two_properties(b->properties);
             c->polygon_array.append(a);
             c->polygon_array.append(b);
             lib.cell_array.append(c);
         }
         const std::string before = dump::library(lib);
-        for (uint64_t mp : limits) {
-            std::string path = R->scratch + fmt("/w%d.%zu.%d.%llu.gds", (int)getpid(), first, ci, (unsigned long long)mp);
-            ErrorCode ec = lib.write_gds(path.c_str(), mp, &ts);
+        // sample points per (shape, layer), shared by every limit and both writers of this configuration
+        std::vector<std::vector<Samp>> scache((last - first) * 2);
+        std::vector<int64_t> sguard((last - first) * 2, -1);
+        for (uint64_t mp : limits)
+          for (int wk = 0; wk < 2; wk++) {
+            if (only_writer >= 0 && wk != only_writer) continue;
+            const char* wname = wk == 0 ? "Library::write_gds" : "GdsWriter::write_cell";
+            std::string path = R->scratch + fmt("/w%d.%zu.%d.%llu.%d.gds", (int)getpid(), first, ci, (unsigned long long)mp, wk);
+            ErrorCode ec = ErrorCode::NoError;
+            if (wk == 0) ec = lib.write_gds(path.c_str(), mp, &ts);
+            else {
+                GdsWriter w = gdswriter_init(path.c_str(), "C12", wc.unit, wc.precision, mp, &ts, &ec);
+                if (w.out) {
+                    for (uint64_t i = 0; i < lib.cell_array.count; i++) { ErrorCode e1 = w.write_cell(*lib.cell_array[i]); if (e1 != ErrorCode::NoError) ec = e1; }
+                    w.close();
+                }
+            }
             std::map<std::string, std::vector<RawBoundary>> raw;
             std::string err;
             bool okraw = ec == ErrorCode::NoError && walk_gds(path, raw, err);
@@ -731,19 +755,24 @@ static void writer_block(const std::vector<Shape>& shapes, size_t first, size_t 
             std::map<std::string, Cell*> backcells;
             for (uint64_t i = 0; i < back.cell_array.count; i++) backcells[back.cell_array[i]->name] = back.cell_array[i];
             if (dump::library(lib) != before)
-                R->violation(sub, "originals_modified", {{"max_points", juint(mp)}, {"config", jstr(wc.name)}}, jobj({{"first_shape", jpts(shapes[first].pts)}}), "write_gds changed the library it wrote",
-                             "sub=writer pts=" + shape_tok(shapes[first]) + fmt(" mp=%llu cfg=%d rfn=%d", (unsigned long long)mp, ci, shapes[first].rfn));
+                R->violation(sub, "originals_modified", {{"max_points", juint(mp)}, {"config", jstr(wc.name)}, {"writer", jstr(wname)}}, jobj({{"first_shape", jpts(shapes[first].pts)}}), "the writer changed the cells it wrote",
+                             "sub=writer pts=" + shape_tok(shapes[first]) + fmt(" mp=%llu cfg=%d wr=%d rfn=%d", (unsigned long long)mp, ci, wk, shapes[first].rfn));
             for (size_t s = first; s < last; s++) {
                 const Shape& sh = shapes[s];
                 const int64_t S = 21 * sh.rfn;
-                std::string replay = "sub=writer pts=" + shape_tok(sh) + fmt(" mp=%llu cfg=%d rfn=%d", (unsigned long long)mp, ci, sh.rfn);
-                JFields tags = {{"kind", jstr(sh.kind.substr(0, sh.kind.find('(')))}, {"n", jint((int64_t)sh.pts.size())}, {"max_points", juint(mp)}, {"config", jstr(wc.name)}};
+                std::string replay = "sub=writer pts=" + shape_tok(sh) + fmt(" mp=%llu cfg=%d wr=%d rfn=%d", (unsigned long long)mp, ci, wk, sh.rfn);
+                JFields tags = {{"kind", jstr(sh.kind.substr(0, sh.kind.find('(')))}, {"n", jint((int64_t)sh.pts.size())}, {"max_points", juint(mp)}, {"config", jstr(wc.name)}, {"writer", jstr(wname)}};
                 std::vector<IPoly> shown;
-                auto case_json = [&]() { return jobj({{"kind", jstr(sh.kind)}, {"points", jpts(sh.pts)}, {"max_points", juint(mp)}, {"config", jstr(wc.name)}, {"records", jpieces(shown, U)}}); };
+                auto case_json = [&]() {
+                    return jobj({{"kind", jstr(sh.kind)}, {"lattice_points", jpts(sh.pts)}, {"user_units_per_lattice_unit", jnum(wc.scale)}, {"max_points", juint(mp)}, {"config", jstr(wc.name)}, {"writer", jstr(wname)},
+                                 {"records_in_lattice_units", jpieces(shown, U)}});
+                };
                 auto viol = [&](const std::string& cls, const std::string& detail) { R->violation(sub, cls, tags, case_json(), detail, replay); };
                 R->count("cases");
                 R->count("writer_cases");
-                if (!okraw) { viol("write_failed", fmt("write_gds error code %d; walker: %s", (int)ec, err.c_str())); continue; }
+                R->count(wk == 0 ? "writer_cases_library_write_gds" : "writer_cases_gdswriter_write_cell");
+                if (wc.scale != 1) R->count("writer_cases_sub_unit_features");
+                if (!okraw) { viol("write_failed", fmt("%s error code %d; walker: %s", wname, (int)ec, err.c_str())); continue; }
                 std::string name = fmt("S%zu", s);
                 std::vector<RawBoundary>& bs = raw[name];
                 bool bad = false;
@@ -767,7 +796,7 @@ static void writer_block(const std::vector<Shape>& shapes, size_t first, size_t 
                     per_layer[b.layer - 3].push_back(p);
                 }
                 if (bad) continue;
-                if (verbose) fprintf(stderr, "writer %s mp=%llu: layer3 %zu record(s), layer4 %zu record(s): %s\n", wc.name, (unsigned long long)mp, per_layer[0].size(), per_layer[1].size(), jpieces(shown, U).c_str());
+                if (verbose) fprintf(stderr, "%s %s mp=%llu: layer3 %zu record(s), layer4 %zu record(s): %s\n", wname, wc.name, (unsigned long long)mp, per_layer[0].size(), per_layer[1].size(), jpieces(shown, U).c_str());
                 // cross-read with gdstk's reader: same polygons, <= max_points vertices each
                 {
                     Cell* bc = backcells.count(name) ? backcells[name] : NULL;
@@ -776,7 +805,7 @@ static void writer_block(const std::vector<Shape>& shapes, size_t first, size_t 
                     else {
                         std::vector<IPoly> rd;
                         std::string e2;
-                        if (!pieces_to_grid(bc->polygon_array, U, rd, e2)) viol("reread_off_grid", e2);
+                        if (!pieces_to_grid(bc->polygon_array, (double)U / wc.scale, rd, e2)) viol("reread_off_grid", e2);
                         else
                             for (size_t i = 0; i < rd.size(); i++) {
                                 Polygon* lp = bc->polygon_array[i];
@@ -801,9 +830,9 @@ static void writer_block(const std::vector<Shape>& shapes, size_t first, size_t 
                         if (!same) viol("limit_below_five_changed_polygon", fmt("%s: records differ from the original vertex list", L));
                         continue;
                     }
-                    std::vector<Samp> samples;
-                    int64_t guarded = 0;
-                    make_samples(sh.pts, offs, U, sh.rfn, samples, &guarded, sh.stride);
+                    std::vector<Samp>& samples = scache[(s - first) * 2 + layer];
+                    int64_t& guarded = sguard[(s - first) * 2 + layer];
+                    if (guarded < 0) { guarded = 0; make_samples(sh.pts, offs, U, sh.rfn, samples, &guarded, sh.stride); }
                     std::vector<IPoly> fine;
                     for (auto& p : pcs) fine.push_back(lift(p, S));
                     PartVerdict v = check_partition(samples, fine, U, sh.rfn, true);
@@ -831,10 +860,10 @@ static void writer_block(const std::vector<Shape>& shapes, size_t first, size_t 
                         R->outcome(sub, fmt("in=%zu mp=%llu records=%zu", sh.pts.size(), (unsigned long long)mp, pcs.size()));
                     }
                 }
-                if (per_layer[0].size() > 4) R->sample(sub, case_json());
+                if (per_layer[0].size() > 4 && wc.scale != 1 && wk == 1) R->sample(sub, case_json());
             }
             back.free_all();
-        }
+          }
         lib.free_all();
     }
 }
@@ -1057,7 +1086,7 @@ static int replay_main() {
         fracture_case(sh, strtoull(R->rarg("mp").c_str(), NULL, 10), atoi(R->rarg("prec").c_str()), atoi(R->rarg("rep").c_str()), true);
     } else if (sub == "writer") {
         std::vector<Shape> v = {shape_from_tok(R->rarg("pts"), rfn)};
-        writer_block(v, 0, 1, {strtoull(R->rarg("mp").c_str(), NULL, 10)}, {atoi(R->rarg("cfg").c_str())}, true);
+        writer_block(v, 0, 1, {strtoull(R->rarg("mp").c_str(), NULL, 10)}, {atoi(R->rarg("cfg").c_str())}, true, R->rarg("wr").empty() ? -1 : atoi(R->rarg("wr").c_str()));
     } else if (sub == "slice") {
         Shape sh = shape_from_tok(R->rarg("pts"), rfn);
         SliceCtx cx;
@@ -1082,7 +1111,7 @@ static int replay_main() {
         for (int x : parse_hist(R->rarg("lim"))) lim.push_back((uint64_t)x);
         int g = atoi(R->rarg("g").c_str());
         if (sub == "fracture-chunk") fracture_block(v, 0, v.size(), lim, true);
-        else if (sub == "writer-chunk") { lim.push_back(0); lim.push_back(4); writer_block(v, 0, v.size(), lim, {0, 1, 2, 3}, true); }
+        else if (sub == "writer-chunk") { lim.push_back(0); lim.push_back(4); writer_block(v, 0, v.size(), lim, {0, 1, 2, 3, 4, 5, 6}, true); }
         else slice_block(v, 0, v.size(), g, true);
     } else {
         R->internal_error("unknown replay sub " + sub);
@@ -1097,7 +1126,7 @@ int main(int argc, char** argv) {
     if (run.replaying()) return replay_main();
     const bool T = run.thorough();
     const std::vector<uint64_t> LIM = {5, 6, 7, 8}, LIMF = {5, 6, 7, 8, 12, 20};
-    const std::vector<int> ALLCFG = {0, 1, 2, 3};
+    const std::vector<int> ALLCFG = {0, 1, 2, 3, 4, 5, 6};
     run.note("sample points ((i+1/3)/r, (j+1/7)/r), r=2 for lattice shapes and r=1 for families; guard band 3*precision around every edge of the original and (fracture, writer) of every piece / "
              "(slice) every cut line; all predicates in int128");
 
@@ -1109,8 +1138,8 @@ int main(int argc, char** argv) {
     run.note(fmt("alphabet: %zu lattice members (g=3, n=5..7, start-fixed, both orientations, collinear allowed, + one repeated-vertex version each); %zu family members", lat36.size(), fam.size()));
     run_search(FRACTURE, "fracture", "g=3 n=5..7 (+1 repeated-vertex version each) x max_points {5,6,7,8} x 3 precisions, + limits {0..4}", lat36, 8, LIM, 3, {}, 5);
     run_search(FRACTURE, "fracture", "families (small parameters) x 4 orientations x max_points {5,6,7,8,12,20} x 3 precisions, + limits {0..4}", fam, 1, LIMF, 0, {}, 10);
-    run_search(WRITER, "writer", "g=3 n=5..7 (+dup) x write_gds max_points {5,6,7,8,0,4} x 4 unit/precision configurations", lat36, 64, LIM, 3, ALLCFG, 10);
-    run_search(WRITER, "writer", "families (small parameters) x write_gds max_points {5,6,7,8,12,20,0,4} x 4 configurations", fam, 4, LIMF, 0, ALLCFG, 10);
+    run_search(WRITER, "writer", "g=3 n=5..7 (+dup) x write_gds max_points {5,6,7,8,0,4} x 7 unit/precision/scale configurations x 2 writers", lat36, 64, LIM, 3, ALLCFG, 10);
+    run_search(WRITER, "writer", "families (small parameters) x write_gds max_points {5,6,7,8,12,20,0,4} x 7 configurations x 2 writers", fam, 4, LIMF, 0, ALLCFG, 10);
     {
         // sort-fallback family (see namespace aq).  variant = transposed | mirrored<<1 | arrangement<<2
         std::vector<Shape> aqs, aqw;
@@ -1132,7 +1161,7 @@ int main(int argc, char** argv) {
                      "(probe: comparison trace of gdstk::sort on the sorted coordinate differs from gdstk::intro_sort with unbounded depth)", range.c_str(), reach, tot));
         if (reach < tot / 2) run.internal_error(fmt("antiqsort family is vacuous: only %d of %d members reach the heap_sort fallback", reach, tot));
         run_search(FRACTURE, "fracture", "antiqsort sort-fallback family " + range + " x max_points {5,6,7,8,12,20} x 3 precisions, + limits {0..4}", aqs, 1, LIMF, 0, {}, 30);
-        run_search(WRITER, "writer", "antiqsort sort-fallback family" + std::string(T ? " (members with n % 4 == 0)" : "") + " x write_gds max_points {5,6,7,8,12,20,0,4} x configuration unit=1e-6,precision=1e-9", aqw, 1, LIMF, 0, {3}, 30);
+        run_search(WRITER, "writer", "antiqsort sort-fallback family" + std::string(T ? " (members with n % 4 == 0)" : "") + " x write_gds max_points {5,6,7,8,12,20,0,4} x configuration unit=1e-6,precision=1e-9 x 2 writers", aqw, 1, LIMF, 0, {3}, 30);
     }
     run_search(SLICE, "slice", "g=3 n=5..7 (+dup) x every sorted list of <=3 positions from {-1,0,1/2,..,3} x 2 axes, scaling 1000", lat36, 2, {}, 3, {}, 5);
     run_search(SLICE, "slice", "families (small parameters) x 2 orientations x sorted lists of <=3 positions around min/mid/max x 2 axes", famslice, 1, {}, 0, {}, 15);
@@ -1144,7 +1173,7 @@ int main(int argc, char** argv) {
         build_families(famTslice, true, {0, 2});
         run.note(fmt("thorough families: %zu members (comb t<=12, saw t<=12, spiral k<=6, stair/band s<=20, slivers, zigzag bands)", famT.size()));
         run_search(FRACTURE, "fracture", "full families x 4 orientations x max_points {5,6,7,8,12,20} x 3 precisions", famT, 1, LIMF, 0, {}, 30);
-        run_search(WRITER, "writer", "full families x write_gds max_points {5,6,7,8,12,20,0,4} x 4 configurations", famT, 2, LIMF, 0, ALLCFG, 30);
+        run_search(WRITER, "writer", "full families x write_gds max_points {5,6,7,8,12,20,0,4} x 7 configurations x 2 writers", famT, 2, LIMF, 0, ALLCFG, 30);
         run_search(SLICE, "slice", "full families x 2 orientations x sorted lists of <=3 positions around min/mid/max x 2 axes", famTslice, 1, {}, 0, {}, 30);
         // ---- stage 3: larger lattice alphabets, smallest first; fracture with every repeated-vertex position
         struct L { int g, nmin, nmax; };
@@ -1156,7 +1185,7 @@ int main(int argc, char** argv) {
             run.note(fmt("alphabet g=%d n=%d: %zu simple polygons; %zu members with every repeated-vertex position", l.g, l.nmin, oned.size() / 2, alld.size()));
             run_search(FRACTURE, "fracture", fmt("g=%d n=%d (+ every repeated-vertex position) x max_points {5,6,7,8} x 3 precisions, + limits {0..4}", l.g, l.nmin), alld, 16, LIM, l.g, {}, 5);
             if (l.g == 3 && l.nmin == 7) continue;  // writer and slice for g=3 n=7 were already completed in stage 1
-            run_search(WRITER, "writer", fmt("g=%d n=%d (+1 repeated-vertex version each) x write_gds max_points {5,6,7,8,0,4} x 4 configurations", l.g, l.nmin), oned, 64, LIM, l.g, ALLCFG, 10);
+            run_search(WRITER, "writer", fmt("g=%d n=%d (+1 repeated-vertex version each) x write_gds max_points {5,6,7,8,0,4} x 7 configurations x 2 writers", l.g, l.nmin), oned, 64, LIM, l.g, ALLCFG, 10);
             run_search(SLICE, "slice", fmt("g=%d n=%d (+1 repeated-vertex version each) x every sorted list of <=3 positions from {-1,0,1/2,..,%d} x 2 axes", l.g, l.nmin, l.g), oned, 2, {}, l.g, {}, 5);
         }
     }
